@@ -163,6 +163,20 @@ def _xarray_dataset(
     to_merge = [v for k, v in data_arrays.items() if k not in all_coords]
     ds = xr.merge(to_merge, compat="override")
     for name in single_output_names:
-        array = data_loader(name)
-        ds[name] = array if isinstance(array, np.ndarray) else ((), array)
+        ds[name] = _single_output_variable(name, data_loader(name))
     return ds
+
+
+def _single_output_variable(name: str, value: Any) -> Any:
+    """The variable for an output without a MapSpec: a plain array or a dimensionless value."""
+    if isinstance(value, np.ndarray):
+        if value.ndim <= 1:
+            return value
+        # xarray needs explicit dimension names for multi-dimensional data
+        return tuple(f"{name}_dim_{i}" for i in range(value.ndim)), value
+    if isinstance(value, list):
+        # Keep the list as a single (dimensionless) element
+        scalar = np.empty((), dtype=object)
+        scalar[()] = value
+        return (), scalar
+    return (), value
